@@ -114,6 +114,7 @@ fn flow(seed: u64, c0: u64, m0: u64, amts: &[i64], check_all_forced: bool) {
         }
     };
     ledger!("ready", ready);
+    let mut seen_nonces: Vec<Scalar> = vec![];
     for (k, a) in amts.iter().enumerate() {
         let (nc, nm) = (lc - *a as i128, lm + *a as i128);
         let before = atoms::layout(&ready).bytes;
@@ -146,6 +147,16 @@ fn flow(seed: u64, c0: u64, m0: u64, amts: &[i64], check_all_forced: bool) {
                 return;
             }
             (Ok((started, start)), None) => {
+                // the honest merchant of the ideal functionality keeps the set of nonces it has seen (the documented usage
+                // contract of allow_payment) and refuses a repeated one as a double spend
+                let n_now = atom_scalar(&atoms::atoms_of(&start.nonce), "");
+                for (j, n_old) in seen_nonces.iter().enumerate() {
+                    let n_old: &Scalar = n_old;
+                    if n_old.term() == n_now.term() || n_old.shadow() == n_now.shadow() {
+                        bad.push(format!("payment {} of {}: the start message reveals the same nonce as payment {} - a merchant keeping its nonce set refuses this honest payment", k, a, j));
+                    }
+                }
+                seen_nonces.push(n_now);
                 ledger!("started (pre-payment balances)", started);
                 sx::set_label("merch:allow_payment");
                 let (unrev, closing) = match w.merchant.allow_payment(&mut rng, amount(*a), &start.nonce, start.pay_proof, &pctx) {
